@@ -21,23 +21,10 @@ HARNESSES = [dict(name="allocator", pkg="./pkg/allocator/", test="TestVerifC01",
                   files=[("pkg/allocator/zz_verif_c01_test.go", "harness/C01/zz_verif_c01_test.go")]),
              dict(name="dhcp", pkg="./pkg/dhcp/", test="TestVerifC01Resolve", timeout=900,
                   files=[("pkg/dhcp/zz_verif_c01_resolve_test.go", "harness/C01/zz_verif_c01_resolve_test.go")])]
-# Every recorded finding of C01 is fixed in /repo (d00d766, c2652db, 85029df, a1ebdc8, 1de6b72): the correspondence
+# Every recorded finding of C01 is fixed in /repo (d00d766, c2652db, 85029df, a1ebdc8, 1de6b72, 2cd02c0): the correspondence
 # compares with the repaired model only, so a regression to any of them is reported as a VIOLATION.  (The Coq model
 # keeps the historical variants for the `_refuted` theorems.)
-# One finding is open: NewPrefixAllocator accepts an IPv4 network for a PD pool (variant "v4pd", signature below).
-VARIANTS = ["repaired", "v4pd"]
-
-
-def signature(case, impl, models):
-    """the only recorded open finding: a PD pool configured on an IPv4 network"""
-    head, ops = split_case(case)
-    if kind(head) == "pd" and head[1].startswith("4:"):
-        return "prefix.NewPrefixAllocator:ipv4-network-accepted"
-    if kind(head) in ("reg", "res"):
-        for pf, fam, pgw, pools in parse_reg(head):
-            if fam == "d" and any(q["net"].startswith("4:") for q in pools):
-                return "prefix.NewPrefixAllocator:ipv4-network-accepted"
-    return "unexplained"
+VARIANTS = ["repaired"]
 
 
 def route(case):
@@ -378,7 +365,9 @@ def gen_registry(rng, resolve=False, maxops=45):
                     v = (v + ((1 << (pl - nb)) << shift)) & ((1 << 128) - 1)
                 elif r < 0.28:
                     v ^= 1 << rng.choice([127, 120, min(127, 64 + shift)])
-                m = "%d:128" % pl if r < 0.93 else rng.choice(["%d:128" % max(0, pl - 1), "mnil", "%d:32" % min(pl, 32)])
+                m = "%d:128" % pl if r < 0.86 else rng.choice(["%d:128" % max(0, pl - 1), "mnil", "%d:32" % min(pl, 32),
+                                                                 "%d:128" % max(0, nb - rng.randint(0, 8)), "%d:128" % min(128, pl + rng.randint(1, 16)),
+                                                                 "%d:128" % max(0, nb - 20)])
                 return "6:%d/%s" % (v, m)
             return rng.choice(["nil", "6:%d/64:128" % rng.getrandbits(128), "bad/64:128"])
         f = 4 if fam == "4" else 6
@@ -990,7 +979,7 @@ def shrink(case):
 
 def distribution(cases, impl):
     d = {"pool": 0, "pd": 0, "reg": 0, "res": 0, "xpool": 0, "xpd": 0, "xreg": 0, "hang": 0, "override_answers": 0,
-         "override_cross_vrf_answers": 0, "ops": 0, "alloc_ok": 0, "exhausted": 0, "conflict": 0,
+         "override_cross_vrf_answers": 0, "pd_overlap_refused": 0, "ops": 0, "alloc_ok": 0, "exhausted": 0, "conflict": 0,
          "contains_true": 0, "nilalloc": 0, "max_ops": 0}
     opk = {}
     for c, o in zip(cases, impl):
@@ -1012,6 +1001,8 @@ def distribution(cases, impl):
                         d["override_answers"] += 1
                         d["override_cross_vrf_answers"] += own(op[1], key) != vrf
         for x in (o or "").split():
+            if x.startswith("ovl"):
+                d["pd_overlap_refused"] += 1
             if x == "x":
                 d["exhausted"] += 1
             elif x.startswith("res"):
